@@ -312,6 +312,20 @@ def run(tier, seed):
     ck.prove('AtMostOneRowMatches', [], z3.AtMost(*preds, 1), vars={'o': o}, witness=False, sample='for every 16-bit word at most one of the %d table rows matches' % n)
     ck.witness('SomeOpcodeIsUndefined', [z3.Not(z3.Or(*preds))])
     lap('unique')
+    # length flag vs declaration: a row needs a second word exactly when its INST line declares an operand at bit position 16
+    # (At<..., 16>); the flag every consumer reads (Matcher::NeedExpansion) is computed by MatcherCreator / Matcher::Except
+    from spec import forms as _forms
+    fl = _forms.rows(build.REPO)
+    if len(fl) != n or any(f['name'] != r['name'] for f, r in zip(fl, rows)):
+        ck.engine_errors.append('decoder.h INST lines (%d) do not line up with the executed table (%d rows)' % (len(fl), n))
+    else:
+        wrong = [(r['i'], r['name'], r['expanded']) for f, r in zip(fl, rows) if int(any(op[0] == 'at' and op[2] == 16 for op in f['ops'])) != r['expanded']]
+        if not wrong:
+            ck.identical('TwoWord.flag', sample='for each of the %d rows the expansion flag of the Matcher object equals "the INST line declares an operand at position 16" (%d two-word rows)' % (n, len([r for r in rows if r['expanded']])))
+            ck.results[-1].status = 'unsat'
+        else:
+            ck.prove('TwoWord.flag', [], z3.BoolVal(False), vars={'first word': z3.BitVecVal(rows[wrong[0][0]]['expected'], 16)}, witness=False,
+                     sample='rows whose expansion flag contradicts their declared operands: %s' % ', '.join('%d %s (flag %d)' % w for w in wrong[:6]))
     # D: the three visitors' tables agree row by row (name, mask, expected, expanded, rejectors)
     for which, label in (('dsm', 'Disassembler'), ('gen', 'TestGenerator')):
         mod, ex2, st2, rows2 = other_table(which)
